@@ -257,8 +257,13 @@ type event struct {
 }
 
 func pickEvent(c *choice.Ctx, menu []event) *event {
+	pz.step++
 	if len(menu) == 0 {
 		return nil
+	}
+	if pz.ch != nil {
+		// a goroutine stands still at a pause point: letting it go on is the default, every other event happens "during" the preemption
+		menu = append([]event{{name: "resume(" + pz.at + ")", do: func() { resume() }}}, menu...)
 	}
 	defer report.FlushCurrent()
 	var sb strings.Builder
